@@ -37,7 +37,7 @@ TIERS = {
                                   "c16.maxstep_active", "c16.level_ge_2", "c16.fixing_inside_the_horizon",
                                   "c16.state_dependent_sde_drift", "c16.nd_single_path_checked",
                                   "c16.nd_coupled_path_checked"]},
-    "thorough": {"worlds": 80000, "wall": 3300, "shrink_budget": 100,
+    "thorough": {"worlds": 80000, "wall": 2900, "shrink_budget": 100,
                  "required_probes": ["c16.single_path_checked", "c16.coupled_path_checked", "c16.diag_coefficient",
                                      "c16.maxstep_active", "c16.level_ge_2"]},
 }
@@ -147,6 +147,19 @@ SIGMA = np.array([0.5, 0.8, 1.0])
 X0_LIBOR = np.array([0.02, 0.025, 0.03])
 
 
+def _check_reads(samples, add):
+    for s_ in samples:
+        rd = s_.get("reads")
+        if rd is None:
+            continue
+        if not rd["same"]:
+            add("C16.euler|reading the solution of a returned path twice gives different values (value() changes the path)", {"serial": s_["serial"]})
+            break
+        if not rd["adds_up"]:
+            add("C16.euler|drift, diffusion and jump parts of a returned path do not add up to its solution", {"serial": s_["serial"]})
+            break
+
+
 def _euler(x0, coef, c, mu, times, dW, dL, tenors=None, sde_drift=None):
     """independent Euler recursion: X_{i+1} = X_i + a(t_i, X_i) * (mu dt_i + dW_i + dL_i), coefficient taken at the LEFT
     end point; scalar state for const / diag, vector state (one row per time) for the Libor coefficient"""
@@ -192,6 +205,7 @@ def execute(wd, sc):
     _install()
     V, errors = [], []
     wd.c16 = {"driver": [], "drifts": {}}
+    wd.check_path_reads = True
     mt, kw = DRIVERS[sc["driver"]]
     x0, coef, c, T = sc["x0"], sc["coef"], sc["c"], sc["maturity"]
     cls = "a=" + {"const": "constant", "diag": "x", "libor": "sigma(t)*x", "libormodel": "sigma(t)*x+libor-drift"}[coef]
@@ -251,6 +265,7 @@ def execute(wd, sc):
     if coef == "diag":
         wd.probes["c16.diag_coefficient"] += 1
     samples = [s for s in wd.samples if "drift" in s]
+    _check_reads(samples, add)
     drivers = wd.c16["driver"]
     # every SDE path consumed exactly one driver path, in order (single process)
     pattern = []
@@ -432,6 +447,7 @@ def execute_nd(wd, sc):
     _install_nd()
     V, errors = [], []
     wd.c16 = {"driver": [], "drifts": {}}
+    wd.check_path_reads = True
     coef, c, T, m = sc["coef"], sc["c"], sc["maturity"], sc["m"]
     cls = "copula-driver|a=" + {"const": "constant", "diag": "diag(x)", "libor": "sigma(t)*x", "libormodel": "sigma(t)*x+libor-drift"}[coef]
 
@@ -498,6 +514,7 @@ def execute_nd(wd, sc):
         errors.append({"kind": type(e).__name__, "msg": str(e)[:160], "where": traceback.extract_tb(e.__traceback__)[-1].name})
         wd.probes["c16.run_raised"] += 1
     samples = [s for s in wd.samples if "drift" in s]
+    _check_reads(samples, add)
     drivers = wd.c16["driver"]
     pattern, nontrivial = [], False
     if len(samples) != len(drivers):
